@@ -4,6 +4,16 @@ package rdb
 
 // Contracts for the verification machinery in /verif (build tag "verif").
 
+// SpecObjType is the object class an entry's parser reports (Parser.Type); SpecFirstBin whether
+// an entry is the first chunk of its value (BinEntry.FirstBin). Both are fixed once the entry exists.
+func SpecObjType(p Parser) int      { panic("abstract spec function") }
+func SpecFirstBin(e *BinEntry) bool { panic("abstract spec function") }
+func SpecSplit(p Parser) bool       { panic("abstract spec function") }
+
+//@ spec SpecObjType abstract
+//@ spec SpecFirstBin abstract
+//@ spec SpecSplit abstract
+
 // ---- stream expansion: the master entry's field count belongs to the whole listpack (C03) -----
 // Entries with the SAMEFIELDS flag take their field names - and their number - from the master
 // entry; an entry with its own field list must not change that number for the entries after it.
